@@ -296,4 +296,11 @@ example : NotApprox (-70) (-60) ∧ Representable (-70) (-60) ∧ lonRegion (-70
 example : NotApprox (-20) 340 ∧ lonRegion (-20) 340 = (true, 0, 360) :=
   ⟨Or.inr (by decide +kernel), by decide +kernel⟩
 
+/-! ### The regenerated source satisfies the property -/
+/-- The translated longitude branch: longitudes stay congruent modulo 360 and land in the convention of the returned region. -/
+theorem src_lon_point_congruent (i360 : Bool) (lon : Rat) :
+    Congr360 (Gen.lonPoint i360 lon) lon ∧
+    (if i360 then 0 ≤ Gen.lonPoint i360 lon ∧ Gen.lonPoint i360 lon < 360 else -180 ≤ Gen.lonPoint i360 lon ∧ Gen.lonPoint i360 lon < 180) := by
+  rw [gen_lon_point_eq_model]; exact lon_point_congruent i360 lon
+
 end Verde.C17
